@@ -642,6 +642,14 @@ class HTTPResponse(BaseHTTPResponse):
         if not self._pool or not self._connection:
             return None
 
+        # A connection whose response body was not read to the end must not be
+        # reused: the rest of the body may still arrive and would be taken for
+        # the response to the next request sent on it.
+        original_response = self._original_response
+        if original_response is not None and hasattr(original_response, "isclosed"):
+            if not original_response.isclosed():
+                self._connection.close()
+
         self._pool._put_conn(self._connection)
         self._connection = None
 
